@@ -393,7 +393,7 @@ func StdContext(g *ExprGen) map[string]interface{} {
 		"pat":  "^a",
 		"None": 9, "True": "tv", "False": true, "Null": "nn",
 		"not1": 4, "in2": uint8(2), "or3": "b", "is4": "Hello", "and5": true,
-		"n1": 3, "n2": 0.5, "n3": int64(10), "n4": float32(7),
+		"n1": 3, "n2": 0.5, "n3": int64(10), "n4": float32(7), "n9": int64(4294967296),
 		"s1": "abc", "s2": "", "s3": "12",
 		"t": true, "f": false,
 		"arr1": []int{1, 2, 3}, "arr2": []interface{}{},
